@@ -64,11 +64,13 @@ class Out:
 def walk_patterns(log_pdus, responses):
     """classify a run by the recorded findings' patterns (D1, D2, D18)"""
     found = set()
-    for req, resp in zip(log_pdus, responses):
+    for nreq, (req, resp) in enumerate(zip(log_pdus, responses)):
         k = len(req["varbinds"])
         vbs = resp
         ends = [v == agent.END for _, v in vbs]
-        if any(ends[i] and not all(ends[i:]) for i in range(len(ends))):
+        # (a GETNEXT walk asks in ascending root order after its first request, where an exhausted column cannot precede a
+        #  live one: the situation of D1 arises in the first request only, which goes out in listing order)
+        if any(ends[i] and not all(ends[i:]) for i in range(len(ends))) and (req["tag"] == ber.GETBULK or nreq == 0):
             found.add("D1")
         oids = [o for o, v in vbs if v != agent.END]
         if len(set(oids)) != len(oids):
@@ -1917,6 +1919,9 @@ def suite_trap(out, tier, seed):
             want_values = {".".join(map(str, o)): v[2] for o, v in vbs[2:]}
             import datetime as _dt
             view = (info.uptime, info.oid, dict(info.values))
+            if (info.uptime, info.oid, dict(info.values)) != view:
+                out.fail(scen, "a second read of the pythonic view differs: %r" % ((info.uptime, info.oid, dict(info.values)),), "the same as the first read: %r" % (view,))
+                break
             want = (_dt.timedelta(milliseconds=10 * vbs[0][1][2]), ".".join(map(str, vbs[1][1][1])), want_values)
             if view != want:
                 out.fail(scen, repr(view), "pythonic view (uptime, oid, values) of THIS notification: %r" % (want,))
